@@ -326,9 +326,16 @@ def upLine {α : Type} (parse : String → Option α) (classify : α → Outcome
     let m := requestLoop cfg atts (List.replicate outs.length 1) cancelAt
     let mRes := if pre then preRes else resName m.result
     let mAtt := if pre then (if preRes == "ctx" then 0 else 1) else m.attempts
-    let madeOuts := outs.take mAtt
     -- `pre`: the context is done before the call, no scripted answer is ever delivered
-    let mHandled := if pre then 0 else (madeOuts.filter (· == .ok true)).length
+    let mHandled := if pre then 0 else handlerCalls atts { m with attempts := mAtt }
+    -- request construction and re-send (Model.newRequest / attemptBodies): every attempt of the model sends the bytes
+    -- of the first one, whatever is built in between (`gz` is a stand-in: the harness compares the real gzip stream)
+    let mSame :=
+      let gzip := (opts.splitOn ",").contains "gz1" || (opts.splitOn ",").any (fun t => t.startsWith "C1")
+      let mr := newRequest (fun p => 31 :: 139 :: p) gzip { next := 0, cells := [] } [1, 2, 3]
+      let bodies := attemptBodies (fun p => 31 :: 139 :: p) mr.1 mr.2
+        (List.replicate (mAtt - 1) [(true, [4, 4]), (false, [5])])
+      bodies.all (· == bodies.headD []) && decide (bodies.length = max mAtt 1)
     let modelStr := s!"{mRes} {mAtt} h{mHandled}"
     let last := outs.getD (natt - 1) .fatal
     let gaps := gapsVerdict (if g == "g-" then "" else (g.drop 1).toString) rs f19
@@ -346,7 +353,8 @@ def upLine {α : Type} (parse : String → Option α) (classify : α → Outcome
           handled == s!"h{((outs.take natt).filter (· == .ok true)).length}"
     let specB := structural && same != "s0" && p != "p0" && stopOK
     let spec := if !specB then "FAIL" else gaps
-    pure { agree := mRes == res && mAtt == natt && handled == s!"h{mHandled}", spec := spec,
+    pure { agree := mRes == res && mAtt == natt && handled == s!"h{mHandled}" && same == (if mSame then "s1" else "s0"),
+           spec := spec,
            nontrivial := natt ≥ 2 || !(res == "ok"),
            branches := s!"{res},{if cfg.enabled then "en" else "dis"},a{min natt 3},M{msel}" ++
              (if cancel == "-" then "" else ",cancel") ++ (if handled != "h0" then ",partial" else "") ++
@@ -389,12 +397,11 @@ def e2eLine (inp obs : List String) : Option Verdict :=
 
 /-- wiring of Shutdown/Stop to a pending export, per exporter package (as read) -/
 def wiringOf (grpc : Bool) (pkg : String) : Option StopWiring :=
-  match pkg, grpc with
-  | "trace", _ => some .cancelsExport
-  | "metric", _ => some .waitsForExport
-  | "log", true => some .waitsForExport
-  | "log", false => some .detaches
-  | _, _ => none
+  match pkg with
+  | "trace" => some (stopWiringOf .trace grpc)
+  | "metric" => some (stopWiringOf .metric grpc)
+  | "log" => some (stopWiringOf .log grpc)
+  | _ => none
 
 def seenTok (pre : String) : Option Bool → String
   | none => pre ++ "stuck"
